@@ -23,7 +23,7 @@ TRACE = ("Trace_C16", "Trace_C16.cfg")
 REQUIRED = ["edit-none", "edit-EditData", "edit-AddTimeStep", "edit-EditGlobalAttr", "edit-AddDataVar", "edit-EditGeomValue",
             "edit-ChangeGeomDtype", "edit-ReshapeSameBytes", "edit-RenameGeom", "edit-AttrAdd", "edit-AttrChange",
             "edit-AttrRemove", "edit-ChangeConvention", "route-inproc", "route-copy", "route-reopen", "route-runtime",
-            "route-subproc1", "route-subproc2", "cf1d", "cf2d", "shoc_simple", "shoc_standard", "arakawa", "ugrid"]
+            "route-subproc1", "route-subproc2", "route-fortran", "edit-TransposeValues", "cf1d", "cf2d", "shoc_simple", "shoc_standard", "arakawa", "ugrid"]
 RULE = ("one case = one base dataset (every convention) and its variants: the same dataset obtained by five routes (built in "
         "process, deep copy, saved and reopened, attribute strings built at run time, fresh interpreters with two other hash "
         "seeds), four edits of non-geometry content and every kind of single geometry edit (one value, dtype, shape with the "
@@ -109,6 +109,8 @@ def base_world(conv: str, rng: random.Random) -> dict:
         w["enc"] = {"base": 0, "fill": "nan", "supplied": ["en"], "edge_dim": "implied", "coords_as": "plain"}
     elif conv == "cf1d":
         w = GW.structured_world(conv, 2, 3, bounds=True)
+    elif conv in ("cf2d", "shoc_simple"):
+        w = GW.structured_world(conv, 3, 3, shape="skew", bounds=True)      # square: a mirrored grid has the same shape
     else:
         w = GW.structured_world(conv, 2, 3, shape="skew", bounds=(conv != "arakawa"))
     CD.add_data_vars(w, rng, rich=False)
@@ -138,6 +140,8 @@ def edits_for(w) -> list[dict]:
         eds.append(dict(base, kind="RenameGeom", new="renamed_lat"))
     if w["conv"] == "cf2d":
         eds.append(dict(base, kind="ReshapeSameBytes"))
+    if w["conv"] in ("cf2d", "shoc_simple") and w["ny"] == w["nx"]:
+        eds.append(dict(base, kind="TransposeValues"))      # every (y, x) geometry variable mirrored about the diagonal
     return eds
 
 
@@ -153,6 +157,10 @@ def cases(tier: str, seed: int) -> list[dict]:
             for ed in edits_for(w)[1:]:
                 ev.append({"a": "Key", "edit": ed, "route": "inproc"})
             ev.append({"a": "Key", "edit": edits_for(w)[5], "route": "copy"})      # an edited geometry twice: same key
+            ev.append({"a": "Key", "edit": edits_for(w)[0], "route": "fortran"})
+            if any(e["kind"] == "TransposeValues" for e in edits_for(w)):
+                tv = next(e for e in edits_for(w) if e["kind"] == "TransposeValues")
+                ev.append({"a": "Key", "edit": tv, "route": "fortran"})
             out.append({"src": "gen", "world": w, "events": ev})
     return out
 
@@ -220,6 +228,11 @@ def apply_edit(w, ds, ed):
             if n not in ds2.variables and "y" not in ds[n].dims and "x" not in ds[n].dims:
                 ds2 = ds2.assign_coords({n: ds[n]})
         ds = ds2
+    elif k == "TransposeValues":
+        for n in geometry_names(w, ds):
+            da = ds[n]
+            if da.ndim >= 2 and da.shape[0] == da.shape[1]:
+                ds = _replace(ds, n, numpy.ascontiguousarray(numpy.swapaxes(numpy.asarray(da.values), 0, 1)), da)
     elif k == "ChangeConvention":
         pass
     return ds
@@ -240,6 +253,14 @@ def via_route(w, ds, route, work):
         ds = ds.copy(deep=True)
         for n in ds.variables:
             ds[n].attrs = {"".join(list(str(k))): ("".join(list(v)) if isinstance(v, str) else v) for k, v in ds[n].attrs.items()}
+        return ds
+    if route == "fortran":
+        # the same values held in Fortran-ordered memory (as after a transpose, or arrays built with order="F")
+        ds = ds.copy(deep=True)
+        for n in geometry_names(w, ds):
+            da = ds[n]
+            if da.ndim >= 2:
+                ds = _replace(ds, n, numpy.asfortranarray(numpy.asarray(da.values)), da)
         return ds
     if route == "reopen":
         p = os.path.join(work, "reopen.nc")
